@@ -1260,6 +1260,113 @@ theorem memorize_same_elements (xs : VL) :
   have h2 := Mem.drain_spec xs (xs.length + 1) r1.2 0 h1.2.1 (Nat.zero_le _) (by omega)
   exact ⟨by simpa using h1.1, by simpa using h2.1, h1.2.2⟩
 
+/-! #### several live iterators over one memorized source
+
+Two cursors (`false` / `true`) over one shared buffer, advanced in an arbitrary order (the
+schedule).  Whatever the interleaving, each cursor receives the source sequence, in order,
+as far as it has been advanced - the memorized iterator behaves like the list of its elements
+for every consumer (zip of the collection with itself, self-join, nested lambdas...). -/
+
+structure Two where
+  m : Mem
+  i : Nat := 0          -- position of cursor `false`
+  j : Nat := 0          -- position of cursor `true`
+  a : VL := []          -- what cursor `false` has received
+  b : VL := []          -- what cursor `true` has received
+
+def Two.step (t : Two) (who : Bool) : Two :=
+  if who then
+    match t.m.next t.j with
+    | none => t
+    | some (x, m') => { t with m := m', j := t.j + 1, b := t.b ++ [x] }
+  else
+    match t.m.next t.i with
+    | none => t
+    | some (x, m') => { t with m := m', i := t.i + 1, a := t.a ++ [x] }
+
+def Two.run (sched : List Bool) (t : Two) : Two := sched.foldl Two.step t
+
+/-- the invariant of the two-cursor machine -/
+def TwoInv (xs : VL) (t : Two) : Prop :=
+  MemInv t.m xs ∧ t.i ≤ t.m.yielded.length ∧ t.j ≤ t.m.yielded.length ∧ t.a = xs.take t.i ∧ t.b = xs.take t.j ∧
+  t.i ≤ xs.length ∧ t.j ≤ xs.length
+
+theorem take_succ_getD (xs : VL) (i : Nat) (h : i < xs.length) : xs.take i ++ [xs.getD i .null] = xs.take (i + 1) := by
+  rw [List.take_succ, List.getD_eq_getElem?_getD, List.getElem?_eq_getElem h]
+  rfl
+
+theorem Two.step_inv (xs : VL) (t : Two) (who : Bool) (h : TwoInv xs t) :
+    TwoInv xs (t.step who) ∧
+    (t.step who).i = (if !who && t.i < xs.length then t.i + 1 else t.i) ∧
+    (t.step who).j = (if who && t.j < xs.length then t.j + 1 else t.j) := by
+  obtain ⟨hm, hi, hj, ha, hb, hil, hjl⟩ := h
+  cases who with
+  | true =>
+    simp only [Two.step, ↓reduceIte, Bool.not_true, Bool.false_and, Bool.false_eq_true, Bool.true_and, decide_eq_true_eq]
+    by_cases hlt : t.j < xs.length
+    · obtain ⟨m', hn, hinv, hj', hmono⟩ := (Mem.next_spec t.m xs t.j hm hj).1 hlt
+      simp only [hn, hlt, ↓reduceIte, and_true]
+      unfold TwoInv; dsimp only
+      exact ⟨hinv, by omega, hj', ha, by rw [hb]; exact take_succ_getD xs t.j hlt, hil, by omega⟩
+    · have hn := (Mem.next_spec t.m xs t.j hm hj).2 (by omega)
+      simp only [hn, hlt, ↓reduceIte, and_true]
+      exact ⟨hm, hi, hj, ha, hb, hil, hjl⟩
+  | false =>
+    simp only [Two.step, Bool.false_eq_true, ↓reduceIte, Bool.not_false, Bool.true_and, decide_eq_true_eq, Bool.false_and]
+    by_cases hlt : t.i < xs.length
+    · obtain ⟨m', hn, hinv, hi', hmono⟩ := (Mem.next_spec t.m xs t.i hm hi).1 hlt
+      simp only [hn, hlt, ↓reduceIte, and_true]
+      unfold TwoInv; dsimp only
+      exact ⟨hinv, hi', by omega, by rw [ha]; exact take_succ_getD xs t.i hlt, hb, by omega, hjl⟩
+    · have hn := (Mem.next_spec t.m xs t.i hm hi).2 (by omega)
+      simp only [hn, hlt, ↓reduceIte, and_true]
+      exact ⟨hm, hi, hj, ha, hb, hil, hjl⟩
+
+/-- **memorize, interleaved consumers.**  For EVERY schedule of two iterators over one memorized
+    one-shot source, each iterator has received exactly the first (number of times it was advanced)
+    elements of the source - nothing skipped, nothing doubled, whatever the other one did in
+    between.  (An iterator advanced `≥ |xs|` times has received the whole source.) -/
+theorem memorize_interleaved (xs : VL) (sched : List Bool) :
+    let t := Two.run sched { m := ⟨xs, []⟩ }
+    t.a = xs.take (sched.count false) ∧ t.b = xs.take (sched.count true) := by
+  have gen : ∀ (sched : List Bool) (t : Two), TwoInv xs t →
+      TwoInv xs (Two.run sched t) ∧
+      (Two.run sched t).i = min (t.i + sched.count false) xs.length ∧
+      (Two.run sched t).j = min (t.j + sched.count true) xs.length := by
+    intro sched
+    induction sched with
+    | nil => intro t h; exact ⟨h, by simp [Two.run]; exact (Nat.min_eq_left h.2.2.2.2.2.1).symm,
+        by simp [Two.run]; exact (Nat.min_eq_left h.2.2.2.2.2.2).symm⟩
+    | cons w sched ih =>
+      intro t h
+      obtain ⟨hinv, hi, hj⟩ := Two.step_inv xs t w h
+      obtain ⟨hinv', hi', hj'⟩ := ih (t.step w) hinv
+      refine ⟨by simpa [Two.run] using hinv', ?_, ?_⟩
+      · have : (Two.run (w :: sched) t).i = (Two.run sched (t.step w)).i := by simp [Two.run]
+        rw [this, hi', hi]
+        have := h.2.2.2.2.2.1
+        cases w <;> simp [List.count_cons] <;> split <;> omega
+      · have : (Two.run (w :: sched) t).j = (Two.run sched (t.step w)).j := by simp [Two.run]
+        rw [this, hj', hj]
+        have := h.2.2.2.2.2.2
+        cases w <;> simp [List.count_cons] <;> split <;> omega
+  intro t
+  have h0 : TwoInv xs { m := ⟨xs, []⟩ } := by simp [TwoInv, MemInv]
+  obtain ⟨hinv, hi, hj⟩ := gen sched _ h0
+  obtain ⟨_, _, _, ha, hb, _, _⟩ := hinv
+  refine ⟨?_, ?_⟩
+  · show (Two.run sched { m := ⟨xs, []⟩ }).a = _
+    rw [ha, hi]; simp [List.take_eq_take_iff]
+  · show (Two.run sched { m := ⟨xs, []⟩ }).b = _
+    rw [hb, hj]; simp [List.take_eq_take_iff]
+
+/-- in particular: run both to the end in any fair order and both have the whole source -/
+theorem memorize_interleaved_full (xs : VL) (sched : List Bool)
+    (h0 : xs.length ≤ sched.count false) (h1 : xs.length ≤ sched.count true) :
+    (Two.run sched { m := ⟨xs, []⟩ }).a = xs ∧ (Two.run sched { m := ⟨xs, []⟩ }).b = xs := by
+  have := memorize_interleaved xs sched
+  exact ⟨by rw [this.1, List.take_of_length_le h0], by rw [this.2, List.take_of_length_le h1]⟩
+
 /-! ### unpack -/
 
 /-- `unpack()` (no names) binds `$1 .. $n` to ALL elements in order - also when the source is a
